@@ -7,6 +7,7 @@ where `performance` is the quantity the example bounds, measured on a run whose 
 initial condition.  Eligibility of a member is decided by the definitional self-test of mc.catalog.members, never by
 interpolation conditions."""
 import itertools
+import copy
 import math
 
 import numpy as np
@@ -23,7 +24,10 @@ def eligible(cls, par, kind="f", dims=(1, 2), extra=()):
             continue
         try:
             if MEM.selftest(m, cls, par) is None:
-                out.append(m)
+                c = copy.copy(m)
+                # claimed memberships are analytic facts; any other accepted membership was verified on the fine grid only
+                c.limited = not any(cn == cls and MEM._same_par(cp, par) for cn, cp in m.claims)
+                out.append(c)
         except Exception:
             continue
     return out
@@ -42,6 +46,31 @@ def starts_at_distance(m, xs, radius=1.0):
         if not any(np.allclose(p, q) for q in uniq):
             uniq.append(p)
     return uniq
+
+
+def starts_any(m, xs):
+    """starts at ANY positive distance of xs: the grid, the unit sphere along the axes / diagonals and a geometric ladder of
+    radii.  Only for families whose class, method and measures are invariant under f -> f(r .) / r^2 (operators: A(r .) / r):
+    iterates are divided by r and every squared distance / function-value gap / squared gradient norm by r^2, so the run from
+    initial quantity Phi is the run from initial quantity 1 on the rescaled member with performance / Phi."""
+    xs = np.array(xs, float)
+    pts = [p for p in m.grid()]
+    if m.dim == 1:
+        dirs = [v(1.0), v(-1.0)]
+    else:
+        dirs = [v(math.cos(t), math.sin(t)) for t in np.linspace(0, 2 * math.pi, 8, endpoint=False)]
+    for dvec in dirs:
+        for r in (0.1, 0.3, 1.0, 3.0, 10.0):
+            pts.append(xs + r * dvec)
+    uniq = []
+    for p in pts:
+        if m.in_domain(p) and np.linalg.norm(p - xs) > 1e-6 and not any(np.allclose(p, q) for q in uniq):
+            uniq.append(p)
+    return uniq
+
+
+def dist2(x, y):
+    return float((x - y) @ (x - y))
 
 
 def grad(m, x):
@@ -63,8 +92,8 @@ def prox(m, x0, gamma):
         return np.linalg.solve(np.eye(m.dim) + gamma * Q, x0 + gamma * Q @ c)
     if m.dim != 1:
         raise NotImplementedError
-    lo_f = lambda t: min(g[0] for g in m.grads(v(t)))
-    hi_f = lambda t: max(g[0] for g in m.grads(v(t)))
+    lo_f = lambda t: min(g[0] for g in m._grads(v(t)))      # the search itself is not part of the run: no range accounting
+    hi_f = lambda t: max(g[0] for g in m._grads(v(t)))
     t0 = float(x0[0])
     # candidates: kinks (integers and half-integers within range) where the inclusion may hold with an interior subgradient
     for k in np.arange(-8, 8.5, 0.5):
@@ -118,11 +147,11 @@ def fam_gd_contraction(p):
     L, mu, g, n = p["L"], p["mu"], p["gamma"], p["n"]
     for m in eligible("SmoothStronglyConvexFunction", {"mu": mu, "L": L}):
         for x0 in m.grid():
-            for y0 in starts_at_distance(m, x0):
+            for y0 in starts_any(m, x0):
                 x, y = x0.copy(), y0.copy()
                 for _ in range(n):
                     x, y = x - g * grad(m, x), y - g * grad(m, y)
-                yield float((x - y) @ (x - y)), "%s from %s / %s" % (m.name, x0.tolist(), y0.tolist())
+                yield float((x - y) @ (x - y)) / dist2(x0, y0), "%s from %s / %s" % (m.name, x0.tolist(), y0.tolist())
 
 
 def fam_gd_quadratics(p):
@@ -144,7 +173,7 @@ def fam_gd_qg(p):
     L, g, n = p["L"], p["gamma"], p["n"]
     for m in eligible("ConvexQGFunction", {"L": L}):
         for xs in m.stationary:
-            for x0 in starts_at_distance(m, xs):
+            for x0 in starts_any(m, xs):
                 # gradient descent with every subgradient selection at kinks
                 def rec(x, k):
                     if k == n:
@@ -153,18 +182,18 @@ def fam_gd_qg(p):
                     for gg in m.grads(x):
                         yield from rec(x - g * gg, k + 1)
                 for x in rec(x0.copy(), 0):
-                    yield m.value(x) - fstar(m), "%s from %s" % (m.name, x0.tolist())
+                    yield (m.value(x) - fstar(m)) / dist2(x0, xs), "%s from %s" % (m.name, x0.tolist())
 
 
 def fam_subgradient_rsi_eb(p):
     mu, L, g, n = p["mu"], p["L"], p["gamma"], p["n"]
     for m in eligible("RsiEbFunction", {"mu": mu, "L": L}):
         xs = m.stationary[0]
-        for x0 in starts_at_distance(m, xs):
+        for x0 in starts_any(m, xs):
             x = x0.copy()
             for _ in range(n):
                 x = x - g * grad(m, x)
-            yield float((x - xs) @ (x - xs)), "%s from %s" % (m.name, x0.tolist())
+            yield float((x - xs) @ (x - xs)) / dist2(x0, xs), "%s from %s" % (m.name, x0.tolist())
 
 
 def fam_subgradient_method(p):
@@ -206,13 +235,14 @@ def _smooth_sc_members(mu, L):
 def fam_heavy_ball(p):
     mu, L, a, b, n = p["mu"], p["L"], p["alpha"], p["beta"], p["n"]
     for m in _smooth_sc_members(mu, L):
-        for x0 in m.grid():
-            if m.value(x0) - fstar(m) > 1 + 1e-12:
+        for x0 in starts_any(m, m.stationary[0]):
+            Phi = m.value(x0) - fstar(m)
+            if Phi < 1e-9:
                 continue
             xn, xo = x0.copy(), x0.copy()
             for _ in range(n):
                 xn, xo = xn - a * grad(m, xn) + b * (xn - xo), xn
-            yield m.value(xn) - fstar(m), "%s from %s" % (m.name, x0.tolist())
+            yield (m.value(xn) - fstar(m)) / Phi, "%s from %s" % (m.name, x0.tolist())
 
 
 def fam_accelerated_gradient_convex(p):
@@ -220,13 +250,13 @@ def fam_accelerated_gradient_convex(p):
     cls, par = ("SmoothConvexFunction", {"L": L}) if mu == 0 else ("SmoothStronglyConvexFunction", {"mu": mu, "L": L})
     for m in eligible(cls, par):
         for xs in m.stationary:
-            for x0 in starts_at_distance(m, xs):
+            for x0 in starts_any(m, xs):
                 xn, y = x0.copy(), x0.copy()
                 for i in range(n):
                     xo = xn
                     xn = y - 1 / L * grad(m, y)
                     y = xn + i / (i + 3) * (xn - xo)
-                yield m.value(xn) - fstar(m), "%s from %s" % (m.name, x0.tolist())
+                yield (m.value(xn) - fstar(m)) / dist2(x0, xs), "%s from %s" % (m.name, x0.tolist())
 
 
 def fam_accelerated_gradient_strongly_convex(p):
@@ -234,15 +264,16 @@ def fam_accelerated_gradient_strongly_convex(p):
     kappa = mu / L
     for m in _smooth_sc_members(mu, L):
         xs = m.stationary[0]
-        for x0 in m.grid():
-            if m.value(x0) - fstar(m) + mu / 2 * float((x0 - xs) @ (x0 - xs)) > 1 + 1e-12:
+        for x0 in starts_any(m, xs):
+            Phi = m.value(x0) - fstar(m) + mu / 2 * float((x0 - xs) @ (x0 - xs))
+            if Phi < 1e-9:
                 continue
             xn, y = x0.copy(), x0.copy()
             for i in range(n):
                 xo = xn
                 xn = y - 1 / L * grad(m, y)
                 y = xn + (1 - math.sqrt(kappa)) / (1 + math.sqrt(kappa)) * (xn - xo)
-            yield m.value(xn) - fstar(m), "%s from %s" % (m.name, x0.tolist())
+            yield (m.value(xn) - fstar(m)) / Phi, "%s from %s" % (m.name, x0.tolist())
 
 
 def fam_triple_momentum(p):
@@ -253,7 +284,7 @@ def fam_triple_momentum(p):
     gamma, delta = rho ** 2 / (1 + rho) / (2 - rho), rho ** 2 / (1 - rho ** 2)
     for m in _smooth_sc_members(mu, L):
         xs = m.stationary[0]
-        for x0 in starts_at_distance(m, xs):
+        for x0 in starts_any(m, xs):
             xo, xn, y = x0.copy(), x0.copy(), x0.copy()
             x = x0.copy()
             for _ in range(n):
@@ -261,14 +292,14 @@ def fam_triple_momentum(p):
                 y = (1 + gamma) * xi - gamma * xn
                 x = (1 + delta) * xi - delta * xn
                 xn, xo = xi, xn
-            yield m.value(x) - fstar(m), "%s from %s" % (m.name, x0.tolist())
+            yield (m.value(x) - fstar(m)) / dist2(x0, xs), "%s from %s" % (m.name, x0.tolist())
 
 
 def fam_optimized_gradient(p):
     L, n = p["L"], p["n"]
     for m in eligible("SmoothConvexFunction", {"L": L}):
         for xs in m.stationary:
-            for x0 in starts_at_distance(m, xs):
+            for x0 in starts_any(m, xs):
                 th = 1.0
                 xn, y = x0.copy(), x0.copy()
                 for i in range(n):
@@ -277,7 +308,7 @@ def fam_optimized_gradient(p):
                     tho = th
                     th = (1 + math.sqrt(4 * th ** 2 + 1)) / 2 if i < n - 1 else (1 + math.sqrt(8 * th ** 2 + 1)) / 2
                     y = xn + (tho - 1) / th * (xn - xo) + tho / th * (xn - y)
-                yield m.value(y) - fstar(m), "%s from %s" % (m.name, x0.tolist())
+                yield (m.value(y) - fstar(m)) / dist2(x0, xs), "%s from %s" % (m.name, x0.tolist())
 
 
 def fam_exact_line_search(p):
@@ -311,11 +342,11 @@ def fam_proximal_gradient(p):
             for _ in range(4000):
                 z = prox(m2, z - (1.0 / L) * grad(m1, z), 1.0 / L)
             xs = z
-            for x0 in starts_at_distance(m1, xs):
+            for x0 in starts_any(m1, xs):
                 x = x0.copy()
                 for _ in range(n):
                     x = prox(m2, x - g * grad(m1, x), g)
-                yield float((x - xs) @ (x - xs)), "%s + %s from %s" % (m1.name, m2.name, x0.tolist())
+                yield float((x - xs) @ (x - xs)) / dist2(x0, xs), "%s + %s from %s" % (m1.name, m2.name, x0.tolist())
 
 
 def fam_drs_contraction(p):
@@ -426,12 +457,12 @@ def fam_halpern(p):
         if m.matrix is not None and m.matrix.shape[0] != m.matrix.shape[1]:
             continue
         for xs in m.fixed:
-            for x0 in starts_at_distance(m, xs):
+            for x0 in starts_any(m, xs):
                 x = x0.copy()
                 for i in range(n):
                     x = 1 / (i + 2) * x0 + (1 - 1 / (i + 2)) * grad(m, x)
                 r = x - grad(m, x)
-                yield float(r @ r), "%s from %s" % (m.name, x0.tolist())
+                yield float(r @ r) / dist2(x0, xs), "%s from %s" % (m.name, x0.tolist())
 
 
 def fam_km(p):
@@ -440,12 +471,12 @@ def fam_km(p):
         if m.matrix is not None and m.matrix.shape[0] != m.matrix.shape[1]:
             continue
         for xs in m.fixed:
-            for x0 in starts_at_distance(m, xs):
+            for x0 in starts_any(m, xs):
                 x = x0.copy()
                 for _ in range(n):
                     x = (1 - g) * x + g * grad(m, x)
                 r = 0.5 * (x - grad(m, x))
-                yield float(r @ r), "%s from %s" % (m.name, x0.tolist())
+                yield float(r @ r) / dist2(x0, xs), "%s from %s" % (m.name, x0.tolist())
 
 
 def fam_contractive_halpern(p):
@@ -454,13 +485,13 @@ def fam_contractive_halpern(p):
         if m.matrix is not None and m.matrix.shape[0] != m.matrix.shape[1]:
             continue
         for xs in m.fixed:
-            for x0 in starts_at_distance(m, xs):
+            for x0 in starts_any(m, xs):
                 x = x0.copy()
                 for i in range(n):
                     phi = (g ** (2 * i + 4) - 1) / (g ** 2 - 1)
                     x = 1 / phi * x0 + (1 - 1 / phi) * grad(m, x)
                 r = x - grad(m, x)
-                yield float(r @ r), "%s from %s" % (m.name, x0.tolist())
+                yield float(r @ r) / dist2(x0, xs), "%s from %s" % (m.name, x0.tolist())
 
 
 def _monotone_members():
@@ -477,27 +508,27 @@ def fam_ppa_operators(p):
     alpha, n = p["alpha"], p["n"]
     for m in _monotone_members():
         for xs in m.stationary:
-            for x0 in starts_at_distance(m, xs):
+            for x0 in starts_any(m, xs):
                 x = x0.copy()
                 prev = x
                 for _ in range(n):
                     prev = x
                     x = resolvent(m, prev, alpha)
-                yield float((x - prev) @ (x - prev)), "%s from %s" % (m.name, x0.tolist())
+                yield float((x - prev) @ (x - prev)) / dist2(x0, xs), "%s from %s" % (m.name, x0.tolist())
 
 
 def fam_accelerated_ppa_operators(p):
     alpha, n = p["alpha"], p["n"]
     for m in _monotone_members():
         for xs in m.stationary:
-            for x0 in starts_at_distance(m, xs):
+            for x0 in starts_any(m, xs):
                 x = [x0.copy() for _ in range(n + 1)]
                 y = [x0.copy() for _ in range(n + 1)]
                 for i in range(0, n - 1):
                     x[i + 1] = resolvent(m, y[i + 1], alpha)
                     y[i + 2] = x[i + 1] + i / (i + 2) * (x[i + 1] - x[i]) - i / (i + 2) * (x[i] - y[i])
                 x[n] = resolvent(m, y[n], alpha)
-                yield float((x[n] - y[n]) @ (x[n] - y[n])), "%s from %s" % (m.name, x0.tolist())
+                yield float((x[n] - y[n]) @ (x[n] - y[n])) / dist2(x0, xs), "%s from %s" % (m.name, x0.tolist())
 
 
 def fam_sgd(p):
@@ -717,13 +748,18 @@ def fam_optimistic_gradient(p, past=False):
         for (a, b) in [(-1.0, 1.0), (0.0, 2.0), (-5.0, 5.0)]:
             # solution of the variational inequality on the box [a,b]^dim: fixed point of the projected operator iteration
             z = np.full(m.dim, 0.3)
-            for _ in range(20000):
+            for it in range(20000):
                 z = _proj_interval(z - 0.05 / max(L, 1.0) * (grad(m, _proj_interval(z - 0.05 / max(L, 1.0) * grad(m, z), a, b))), a, b)
+                if it % 200 == 199 and np.linalg.norm(_proj_interval(z - grad(m, z), a, b) - z) < 1e-12:
+                    break
             xs = z
             if np.linalg.norm(_proj_interval(xs - grad(m, xs), a, b) - xs) > 1e-7:
                 continue
-            for x0 in starts_at_distance(m, xs):
+            for x0 in starts_any(m, xs):
                 x = _proj_interval(x0, a, b)
+                sc = dist2(x, xs)       # the run starts at the projected point
+                if sc < 1e-9:
+                    continue
                 xt = x
                 V = grad(m, xt)
                 prev = x
@@ -734,14 +770,14 @@ def fam_optimistic_gradient(p, past=False):
                         pV = V
                         V = grad(m, xt)
                         x = xt + g * (pV - V)
-                    yield float((xt - prev) @ (xt - prev)), "%s on [%g,%g] from %s" % (m.name, a, b, x0.tolist())
+                    yield float((xt - prev) @ (xt - prev)) / sc, "%s on [%g,%g] from %s" % (m.name, a, b, x0.tolist())
                 else:
                     for _ in range(n):
                         xt = _proj_interval(x - g * V, a, b)
                         V = grad(m, xt)
                         prev = x
                         x = _proj_interval(x - g * V, a, b)
-                    yield float((x - prev) @ (x - prev)), "%s on [%g,%g] from %s" % (m.name, a, b, x0.tolist())
+                    yield float((x - prev) @ (x - prev)) / sc, "%s on [%g,%g] from %s" % (m.name, a, b, x0.tolist())
 
 
 def fam_past_extragradient(p):
